@@ -70,7 +70,8 @@ def render(frec, name, sigs=None):
             elif op[0] == "read":
                 terms.append(".".join(op[1]))
             elif op[0] == "call":
-                terms.append(call_src(op, ps, sigs.get(op[1][-1])))
+                terms.append("(lambda _t: %d if _t is None else _t)(%s)" % (
+                    NONE_CONTRIB, call_src(op, ps, sigs.get(op[1][-1]))))
             else:
                 raise ValueError("op %r not expressible in a lambda" % (op,))
         return "lambda %s: %s" % (params_src(ps), " + ".join(terms))
